@@ -78,13 +78,15 @@ def main():
             na.append({"property_id": pid, "reason": NOT_YET.get(pid, "check not built yet in this round (planned in DESIGN.md section 3); not claimed until it runs quietly on the unchanged tree")})
     man = {
         "version": 1,
-        "setup_cmd": "/venv/bin/python -c 'import hypothesis' 2>/dev/null || /venv/bin/pip install --no-index --find-links /opt/veriftools/wheels hypothesis",
+        "setup_cmd": "(/venv/bin/python -c 'import hypothesis' 2>/dev/null || /venv/bin/pip install --no-index --find-links /opt/veriftools/wheels hypothesis) && "
+                     "(test -d /verif/.deps/atheris || /venv/bin/pip install -q --no-index --find-links /opt/veriftools/wheels --target /verif/.deps atheris || "
+                     "echo 'atheris not installable: the coverage-guided sub-checks will report atheris-unavailable and be skipped')",
         "hooks": {"guard": "COMA_VERIF",
                   "enable": "no repository hooks are needed: checks import /repo's working tree (or $VERIF_REPO) and observe through the project's own Extension mechanism; the guard variable is unused",
                   "baseline_off_cmd": "cd /repo && /venv/bin/python -m pytest -ra -q -p no:cacheprovider --timeout=900 --continue-on-collection-errors",
                   "source_commits": [], "add_only": True},
         "engines": [{"name": "vcheck", "path": "vcheck", "serves_properties": [c["property_id"] for c in checks],
-                     "kind_free_text": "Hypothesis 6.168 property-based testing and exhaustive small-domain enumeration, 16 process shards, explicit oracles per property (vlib/, checks/)"}],
+                     "kind_free_text": "Hypothesis 6.168 property-based testing, exhaustive small-domain enumeration and atheris 3.1 (libFuzzer) coverage-guided campaigns over the same generators; 16 process shards, explicit oracles per property (vlib/, checks/)"}],
         "checks": checks,
         "notes": "Genuine defects found and repaired are listed in known_findings.json (status fixed, with the fix commit) and DESIGN.md section 4; regress/ holds their minimal reproductions, replayed first by every run.",
         "not_applicable": na,
